@@ -1,5 +1,6 @@
 import FlexVerif.Driver.Case
 import FlexVerif.Validator.Validate
+import FlexVerif.Driver.Trace
 namespace FlexVerif
 
 def showLabel : Option (List Int) → String
@@ -35,8 +36,14 @@ def mainImpl (args : List String) : IO UInt32 := do
     if !c.errors.isEmpty then return 2
     let budget := (rest.head?.bind String.toNat?).getD 200000
     cmdValidate c budget
+  | "trace" :: path :: rest =>
+    let lines ← IO.FS.lines path
+    let c := Case.ofLines lines
+    for e in c.errors do IO.println s!"error {e}"
+    if !c.errors.isEmpty then return 2
+    cmdTrace c (rest.contains "--spec")
   | _ =>
-    IO.eprintln "usage: fvdriver validate <case> [budget]"
+    IO.eprintln "usage: fvdriver validate <case> [budget] | trace <case> [--spec]"
     return 2
 
 end FlexVerif
